@@ -44,6 +44,26 @@ def gen(tier, rng):
                     cases.append(rz.resize_case(pt, sw, sh, dw, dh, alg=alg, flt=flt, m=2, alpha=alpha, cpu=rz.pick(g, 115, rz.CPUS),
                                                 src_c={"g": "rand", "seed": seed, "flo": 0.0, "fhi": 1.0}, threads=t, log=("digest",),
                                                 chk=pipe + ("threads", "ret_ok", "outside") + (("memo_exact",) if t > 1 or rep else ()), g=g))
+    # crops: the passes get non-zero source offsets (u8: vertical pass first with x_first > 0; single-pass plans with an integer origin)
+    crop_shapes = [  # (pt, sw, sh, dw, dh, box (Q = 2), alg, filter)
+        ("U8", 400, 300, 150, 140, (202, 37, 440, 420), "conv", "Bilinear"), ("U8x3", 300, 260, 160, 150, (81, 21, 400, 380), "conv", "Lanczos3"),
+        ("U8x4", 260, 300, 140, 170, (120, 0, 300, 500), "conv", "CatmullRom"), ("U16x2", 300, 200, 200, 150, (100, 40, 400, 300), "conv", "Bilinear"),
+        ("U8x3", 330, 240, 200, 130, (60, 30, 400, 390), "interp", "Mitchell"), ("F32", 280, 280, 130, 130, (100, 100, 300, 300), "conv", "Box"),
+        ("U16x3", 300, 300, 140, 300 - 40, (80, 80, 440, 520), "conv", "Lanczos3"),    # vertical-only? (height = crop height): horizontal only
+        ("U8", 300, 300, 300 - 60, 150, (120, 80, 480, 440), "conv", "Hamming"),        # width = crop width: vertical only with column offset 60
+        ("U8x4", 200, 400, 140, 200, (120, 200, 280, 400), "ss", "Bilinear"),
+    ]
+    for (pt, sw, sh, dw, dh, box, alg, flt) in crop_shapes:
+        for alpha in ((True, False) if rz.PT[pt]["alpha"] else (False,)):
+            g += 1
+            seed = rng.randint(1, 10 ** 9)
+            for slay in (None, {"k": "crop_ref", "pad": [37, 5, 3, 2]}):
+                g += 1
+                for t in POOLS:
+                    cases.append(rz.resize_case(pt, sw, sh, dw, dh, alg=alg, flt=flt, m=2, alpha=alpha, box=box, Q=2, cpu=rz.pick(g, 701, rz.CPUS),
+                                                src_c={"g": "rand", "seed": seed, "flo": 0.0, "fhi": 1.0}, src_lay=slay,
+                                                dst_lay={"k": "crop_mut", "pad": [3, 2, 1, 4]} if slay else None, threads=t, log=("digest",),
+                                                chk=("pipeline", "threads", "no_panic", "outside") + (("memo_exact",) if t > 1 else ()), g=g))
     # alpha operations: one- and two-image splitting
     for pt in ("U8x2", "U8x4", "U16x2", "U16x4", "F32x2", "F32x4"):
         for op in ("mul", "div", "mul_inplace", "div_inplace"):
